@@ -368,6 +368,12 @@ ALL_OA_FLAGS = [
 ]
 
 
+# equal-but-differently-typed constants (1 == True == 1.0 ...): a traversal that
+# memoises by value instead of identity confuses them
+CONST_POOL = [0, 1, True, False, 1.0, 0.0, 2, 2.0, (1, 0), (True, False),
+              (1.0, 0.0), 'a', ('a',), None]
+
+
 class Maker:
   """Evaluates a value descriptor on one side ('impl' -> fiddle objects,
   'model' -> MNodes), preserving sharing via descriptor ids.
@@ -418,6 +424,18 @@ class Maker:
       return collections.defaultdict(list, {k: self(v) for k, v in d['ddict']})
     if 'hostile' in d:
       return stubmod.Hostile()
+    if 'const' in d:
+      return CONST_POOL[d['const'] % len(CONST_POOL)]
+    if 'sym' in d:
+      # a Python symbol used as a plain argument VALUE (function / class /
+      # enum member): the same object on both sides
+      name = d['sym']
+      if name in self.stubs:
+        return self.stubs[name]
+      obj = stubmod
+      for part in name.split('.'):
+        obj = getattr(obj, part)
+      return obj
     if 'tv' in d:
       tv = d['tv']
       if self.side == 'impl':
